@@ -26,6 +26,7 @@ try:
             alarms.append(p)
 finally:
     subprocess.run(["git", "-C", "/repo", "checkout", "--", "."], check=True)
+    subprocess.run(["git", "-C", "/repo", "clean", "-fdq", "src"], check=True)
     shutil.rmtree(evd); shutil.move(keep, evd)
     subprocess.run([sys.executable, "-c", "import sys; sys.path.insert(0, %r); from vlib import core; core.build_harness(); core.regen()" % HERE],
                    cwd=HERE, capture_output=True)
